@@ -113,6 +113,7 @@ func runC02(c *Ctx) {
 		{"one.F2.P1", one[:1], vrt.Budget{F: 2, P: 1, Total: 3}, cut},
 		{"manual.one.F2", one, vrt.Budget{F: 2}, cutw},
 		{"eofwrite.one.F2", one, vrt.Budget{F: 2}, env.FaultSet{WriteErr: true, AckLost: true}},
+		{"slow-onerror.one.F2", one, vrt.Budget{F: 2}, cut},
 		{"timeout.one.F2", one, vrt.Budget{F: 2}, env.FaultSet{Silent: true, SilentDrop: true, LostClose: true, OnlyTypes: map[byte]bool{env.PUBLISH: true, env.PUBREL: true}}},
 	}
 	if c.Thorough() { // after the quick families
@@ -143,7 +144,7 @@ func runC02(c *Ctx) {
 						Bound: f.bound,
 						Cfg:   vrt.Config{Horizon: int64(600 * time.Second)},
 						Body: func() {
-							rcExecuteInto(&rcCfg{Reqs: reqs, Faults: f.faults, KeepSession: true, MethodB: mb, AlwaysResub: always, Manual: strings.HasPrefix(f.name, "manual."), RespTimeout: c02RespTimeout(f.name), EOFWriteErrors: strings.HasPrefix(f.name, "eofwrite.")}, &run)
+							rcExecuteInto(&rcCfg{Reqs: reqs, Faults: f.faults, KeepSession: true, MethodB: mb, AlwaysResub: always, Manual: strings.HasPrefix(f.name, "manual."), RespTimeout: c02RespTimeout(f.name), EOFWriteErrors: strings.HasPrefix(f.name, "eofwrite."), SlowOnError: c02SlowOnError(f.name)}, &run)
 							c02Oracle(run)
 						},
 						Observe: func() uint64 { return run.net.TraceHash() },
@@ -159,6 +160,15 @@ func runC02(c *Ctx) {
 	if sample != nil {
 		c.Sample(map[string]any{"workload": rcName(sample.cfg.Reqs), "faults": sample.broker.FaultLog, "wire": sample.net.TraceStrings(), "deliveries": fmt.Sprint(sample.broker.Deliveries)})
 	}
+}
+
+// c02SlowOnError: families named "slow-onerror.*" run with an OnError callback that takes 2.5 s, longer
+// than the redial and the handshake of the next connection.
+func c02SlowOnError(fam string) time.Duration {
+	if strings.HasPrefix(fam, "slow-onerror.") {
+		return 2500 * time.Millisecond
+	}
+	return 0
 }
 
 // c02RespTimeout: families named "timeout.*" run with RetryClient.ResponseTimeout set (a silent link
@@ -273,6 +283,7 @@ func runC03(c *Ctx) {
 		{"N3.F1", 3, []string{"p1", "p2", "sub"}, []byte{'B', 'N'}, vrt.Budget{F: 1}, cl},
 		{"N3.F2.pub", 3, []string{"p1"}, []byte{'N'}, vrt.Budget{F: 2}, cl},
 		{"manual.N2.F1", 2, []string{"p1", "p2", "sub"}, []byte{'B', 'N'}, vrt.Budget{F: 1}, cut},
+		{"slow-onerror.N2.F1", 2, []string{"p1", "p2", "sub"}, []byte{'S', 'N', 'O'}, vrt.Budget{F: 1}, cut},
 	}
 	quickN := len(fams) // the thorough tier runs the quick families first, unchanged, then the deeper ones
 	if c.Thorough() {
@@ -305,7 +316,7 @@ func runC03(c *Ctx) {
 					Bound: f.bound,
 					Cfg:   vrt.Config{Horizon: int64(600 * time.Second)},
 					Body: func() {
-						rcExecuteInto(&rcCfg{Reqs: reqs, Faults: f.faults, KeepSession: sess.keep, AlwaysResub: sess.always, Manual: strings.HasPrefix(f.name, "manual.")}, &run)
+						rcExecuteInto(&rcCfg{Reqs: reqs, Faults: f.faults, KeepSession: sess.keep, AlwaysResub: sess.always, Manual: strings.HasPrefix(f.name, "manual."), SlowOnError: c02SlowOnError(f.name)}, &run)
 						c03Oracle(run)
 					},
 					Observe: func() uint64 { return run.net.TraceHash() },
@@ -396,6 +407,7 @@ func runC12(c *Ctx) {
 		{"N2.F2", two, vrt.Budget{F: 2}, cut},
 		{"manual.one.F2", one, vrt.Budget{F: 2}, cut},
 		{"repeat-pubrec.one.F2", one, vrt.Budget{F: 2}, cut},
+		{"slow-onerror.one.F2", one, vrt.Budget{F: 2}, cut},
 	}
 	if c.Thorough() { // after the quick families
 		fams = append(fams, []fam{
@@ -422,7 +434,7 @@ func runC12(c *Ctx) {
 					Bound: f.bound,
 					Cfg:   vrt.Config{Horizon: int64(600 * time.Second)},
 					Body: func() {
-						rcExecuteInto(&rcCfg{Reqs: reqs, Faults: f.faults, KeepSession: sess.keep, AlwaysResub: sess.always, Manual: strings.HasPrefix(f.name, "manual."), RepeatPubRec: strings.HasPrefix(f.name, "repeat-pubrec.")}, &run)
+						rcExecuteInto(&rcCfg{Reqs: reqs, Faults: f.faults, KeepSession: sess.keep, AlwaysResub: sess.always, Manual: strings.HasPrefix(f.name, "manual."), RepeatPubRec: strings.HasPrefix(f.name, "repeat-pubrec."), SlowOnError: c02SlowOnError(f.name)}, &run)
 						if run.connectOK {
 							c12Oracle(run.net, func(k string) string { return k + ":faults=" + run.faultKinds() }, run.summary)
 						}
